@@ -31,3 +31,72 @@ package ingressanalyzer
 //@     invariant acc: (requiredPort.IntVal == 0 && requiredPort.StrVal == "") == requiredPortEmpty
 //@     invariant cnt: requiredPortEmpty ==> len(res) == rangeindex + 1
 //@     invariant none: !requiredPortEmpty ==> (len(res) == 0 && (forall j int :: {actualServicePorts[j]} (0 <= j && j <= rangeindex) ==> !designates(actualServicePorts[j], requiredPort)))
+
+// ---------------------------------------------------------------------------------------------
+// From a backend (service ports + designated port) to the ports reached on one workload (C10)
+// ---------------------------------------------------------------------------------------------
+
+//@ import eval "github.com/np-guard/netpol-analyzer/pkg/netpol/eval"
+//@ import common "github.com/np-guard/netpol-analyzer/pkg/netpol/internal/common"
+//@ import k8s "github.com/np-guard/netpol-analyzer/pkg/netpol/eval/internal/k8s"
+
+// the number an access port stands for on this pod: a name is resolved on the pod itself (TCP only), a number is itself
+//@ fun intValueOf(x intstr.IntOrString) int = if x.Type == intstr.String then (if atoiOk(x.StrVal) then atoiVal(x.StrVal) else 0) else x.IntVal
+//@ fun reachPort(pod *k8s.Pod, x intstr.IntOrString, n int) bool = if x.StrVal != "" then namedMatch(pod.Ports, x.StrVal, "TCP", n) else n == intValueOf(x)
+// the connection from the ingress controller to the peer through a backend whose access ports are pp: the TCP container
+// ports of the peer that one of the access ports stands for
+//@ fun ipcPts(peer eval.Peer, pp []intstr.IntOrString, q string, n int) bool = q == "TCP" && tcpPort(podOfPeer(peer), n)
+//@     && (exists k int :: {pp[k]} 0 <= k && k < len(pp) && reachPort(podOfPeer(peer), pp[k], n))
+
+//@ func (*IngressAnalyzer).getIngressPeerConnection
+//@   requires ia != nil && ia.pe != nil && podLike(peer)
+//@   modifies *
+//@   ensures [C10] ok: res1 == nil && wfCS(res0) && fresh(res0) && freshSep(res0) && allKept() && !res0.AllowAll
+//@   ensures [C10] pts: forall q corev1.Protocol, n int :: {iset(res0.AllowedProtocols[q].Ports)[n]}
+//@         ptsP(res0, q, n) == ipcPts(peer, accessPortsOf(actualServicePorts, requiredPort), q, n)
+//@   loop 1 cut:
+//@     invariant ports: peerPortsToFind == accessPortsOf(actualServicePorts, requiredPort)
+//@     invariant wf: wfCS(res) && fresh(res) && freshSep(res) && allKept() && !res.AllowAll
+//@     invariant tcp: wfCS(peerTCPConn) && !peerTCPConn.AllowAll && sepCS(res, peerTCPConn)
+//@         && (forall q corev1.Protocol, n int :: {iset(peerTCPConn.AllowedProtocols[q].Ports)[n]} ptsP(peerTCPConn, q, n) == (q == "TCP" && tcpPort(podOfPeer(peer), n)))
+//@     invariant pts: forall q corev1.Protocol, n int :: {iset(res.AllowedProtocols[q].Ports)[n]}
+//@         ptsP(res, q, n) == (q == "TCP" && tcpPort(podOfPeer(peer), n)
+//@              && (exists k int :: {peerPortsToFind[k]} 0 <= k && k <= rangeindex && reachPort(podOfPeer(peer), peerPortsToFind[k], n)))
+
+// ---------------------------------------------------------------------------------------------
+// Every backend of an Ingress / Route object is analysed (C10): for each backend whose service is known and each
+// workload the service selects, the result holds at least the ports reached through that backend
+// ---------------------------------------------------------------------------------------------
+
+//@ fun svcKnown(ia *IngressAnalyzer, ns string, name string) bool = ia.servicesToPortsAndPeersMap != nil && ns in ia.servicesToPortsAndPeersMap
+//@     && ia.servicesToPortsAndPeersMap[ns] != nil && name in ia.servicesToPortsAndPeersMap[ns]
+//@ pred svcMapOK(ia *IngressAnalyzer, ns string) = forall name string :: {name in ia.servicesToPortsAndPeersMap[ns]} svcKnown(ia, ns, name) ==>
+//@     (forall j int :: {ia.servicesToPortsAndPeersMap[ns][name].peers[j]} (0 <= j && j < len(ia.servicesToPortsAndPeersMap[ns][name].peers)) ==> podLike(ia.servicesToPortsAndPeersMap[ns][name].peers[j]))
+// what the backend (pp, req) contributes for peer p is included in the set recorded for p
+//@ pred backendIncluded(m map[eval.Peer]*common.ConnectionSet, p eval.Peer, pp []corev1.ServicePort, req intstr.IntOrString) = p in m && m[p] != nil
+//@     && (forall q corev1.Protocol, n int :: {iset(m[p].AllowedProtocols[q].Ports)[n]} ipcPts(p, accessPortsOf(pp, req), q, n) ==> pts(m[p], q, n))
+// the recorded sets are well-formed, allocated during this call, and share nothing
+//@ pred resSetsOK(m map[eval.Peer]*common.ConnectionSet) = m != nil && fresh(m)
+//@     && (forall p eval.Peer :: {p in m} p in m ==> (wfCS(m[p]) && fresh(m[p]) && freshSep(m[p])))
+//@     && (forall p eval.Peer, r eval.Peer :: {p in m, r in m} (p in m && r in m && p != r) ==> sepCS(m[p], m[r]))
+
+//@ func (*IngressAnalyzer).getIngressObjectTargetedPeersAndPorts
+//@   requires ia != nil && ia.pe != nil && svcMapOK(ia, ns) && caLoggerOK(ia.logger)
+//@   modifies *
+//@   ensures [C10] all: res1 == nil ==> (forall i int, j int :: {svcList[i], ia.servicesToPortsAndPeersMap[ns][svcList[i].serviceName].peers[j]}
+//@         (0 <= i && i < len(svcList) && svcKnown(ia, ns, svcList[i].serviceName) && 0 <= j && j < len(ia.servicesToPortsAndPeersMap[ns][svcList[i].serviceName].peers)) ==>
+//@         backendIncluded(res0, ia.servicesToPortsAndPeersMap[ns][svcList[i].serviceName].peers[j], ia.servicesToPortsAndPeersMap[ns][svcList[i].serviceName].ports, svcList[i].servicePort))
+//@   loop 1:
+//@     invariant sets: resSetsOK(res) && allKept()
+//@     invariant done: forall i int, j int :: {svcList[i], ia.servicesToPortsAndPeersMap[ns][svcList[i].serviceName].peers[j]}
+//@         (0 <= i && i <= rangeindex1 && svcKnown(ia, ns, svcList[i].serviceName) && 0 <= j && j < len(ia.servicesToPortsAndPeersMap[ns][svcList[i].serviceName].peers)) ==>
+//@         backendIncluded(res, ia.servicesToPortsAndPeersMap[ns][svcList[i].serviceName].peers[j], ia.servicesToPortsAndPeersMap[ns][svcList[i].serviceName].ports, svcList[i].servicePort)
+//@   loop 2:
+//@     invariant sets: resSetsOK(res) && allKept()
+//@     invariant outer: 0 <= rangeindex1 && rangeindex1 < len(svcList) && svc == svcList[rangeindex1]
+//@     invariant entry: (svcKnown(ia, ns, svc.serviceName) ==> peersAndPorts == ia.servicesToPortsAndPeersMap[ns][svc.serviceName])
+//@         && (!svcKnown(ia, ns, svc.serviceName) ==> len(peersAndPorts.peers) == 0)
+//@     invariant done: forall i int, j int :: {svcList[i], ia.servicesToPortsAndPeersMap[ns][svcList[i].serviceName].peers[j]}
+//@         (0 <= i && i <= rangeindex1 - 1 && svcKnown(ia, ns, svcList[i].serviceName) && 0 <= j && j < len(ia.servicesToPortsAndPeersMap[ns][svcList[i].serviceName].peers)) ==>
+//@         backendIncluded(res, ia.servicesToPortsAndPeersMap[ns][svcList[i].serviceName].peers[j], ia.servicesToPortsAndPeersMap[ns][svcList[i].serviceName].ports, svcList[i].servicePort)
+//@     invariant cur: forall j int :: {peersAndPorts.peers[j]} (0 <= j && j <= rangeindex2) ==> backendIncluded(res, peersAndPorts.peers[j], peersAndPorts.ports, svc.servicePort)
